@@ -825,9 +825,10 @@ class StyleProperties:
       elif model_value.overline is False:
         actual_values.append("noOverline")
 
-      attrib_value = " ".join(actual_values)
+      # a value without any component does not change the decoration and has no TTML representation
 
-      xml_element.set(f"{{{cls.ns}}}{cls.local_name}", attrib_value)
+      if len(actual_values) > 0:
+        xml_element.set(f"{{{cls.ns}}}{cls.local_name}", " ".join(actual_values))
 
 
   class TextEmphasis(StyleProperty):
